@@ -58,3 +58,76 @@ package swamp
 //@   ensures[budget_spent_by_one_only] !isnil(opts.CapBudgetLeft) ==> deref(opts.CapBudgetLeft) == old(deref(opts.CapBudgetLeft)) || deref(opts.CapBudgetLeft) == old(deref(opts.CapBudgetLeft)) - 1
 //@   ensures[budget_spent_only_on_no_to_yes] !isnil(opts.CapBudgetLeft) && deref(opts.CapBudgetLeft) != old(deref(opts.CapBudgetLeft)) ==> lastretb("opts.CapPredicate") && (calls("opts.CapPredicate") == old(calls("opts.CapPredicate")) + 2 ==> !lastretb("prev:opts.CapPredicate")) && (res.Status == PatchStatusPatched || res.Status == PatchStatusCreated)
 //@   ensures[cap_exceeded_means_no_budget] res.Status == PatchStatusCapExceeded ==> (isnil(opts.CapBudgetLeft) || old(deref(opts.CapBudgetLeft)) <= 0) && lastretb("opts.CapPredicate")
+
+// ---------------------------------------------------------------------------------------
+// Lazy index build (property C07): an uninitialised ordered index is filled from the records that
+// carry the attribute and is sorted BY THAT ATTRIBUTE in its own direction.
+// Assumed interface contracts (they only make the calls observable through calls()/calledwith()):
+//@ trusted func (github.com/hydraide/hydraide/app/core/hydra/swamp/beacon.Beacon).SortByCreationTimeAsc(b) (err)
+//@ trusted func (github.com/hydraide/hydraide/app/core/hydra/swamp/beacon.Beacon).SortByCreationTimeDesc(b) (err)
+//@ trusted func (github.com/hydraide/hydraide/app/core/hydra/swamp/beacon.Beacon).SortByUpdateTimeAsc(b) (err)
+//@ trusted func (github.com/hydraide/hydraide/app/core/hydra/swamp/beacon.Beacon).SortByUpdateTimeDesc(b) (err)
+//@ trusted func (github.com/hydraide/hydraide/app/core/hydra/swamp/beacon.Beacon).SortByExpirationTimeAsc(b) (err)
+//@ trusted func (github.com/hydraide/hydraide/app/core/hydra/swamp/beacon.Beacon).SortByExpirationTimeDesc(b) (err)
+//@ trusted func (github.com/hydraide/hydraide/app/core/hydra/swamp/beacon.Beacon).SortByKeyAsc(b) (err)
+//@ trusted func (github.com/hydraide/hydraide/app/core/hydra/swamp/beacon.Beacon).SortByKeyDesc(b) (err)
+//@ trusted func (github.com/hydraide/hydraide/app/core/hydra/swamp/beacon.Beacon).SortByValueUint8ASC(b) (err)
+//@ trusted func (github.com/hydraide/hydraide/app/core/hydra/swamp/beacon.Beacon).SortByValueUint8DESC(b) (err)
+//@ trusted func (github.com/hydraide/hydraide/app/core/hydra/swamp/beacon.Beacon).SortByValueUint16ASC(b) (err)
+//@ trusted func (github.com/hydraide/hydraide/app/core/hydra/swamp/beacon.Beacon).SortByValueUint16DESC(b) (err)
+//@ trusted func (github.com/hydraide/hydraide/app/core/hydra/swamp/beacon.Beacon).SortByValueUint32ASC(b) (err)
+//@ trusted func (github.com/hydraide/hydraide/app/core/hydra/swamp/beacon.Beacon).SortByValueUint32DESC(b) (err)
+//@ trusted func (github.com/hydraide/hydraide/app/core/hydra/swamp/beacon.Beacon).SortByValueUint64ASC(b) (err)
+//@ trusted func (github.com/hydraide/hydraide/app/core/hydra/swamp/beacon.Beacon).SortByValueUint64DESC(b) (err)
+//@ trusted func (github.com/hydraide/hydraide/app/core/hydra/swamp/beacon.Beacon).SortByValueInt8ASC(b) (err)
+//@ trusted func (github.com/hydraide/hydraide/app/core/hydra/swamp/beacon.Beacon).SortByValueInt8DESC(b) (err)
+//@ trusted func (github.com/hydraide/hydraide/app/core/hydra/swamp/beacon.Beacon).SortByValueInt16ASC(b) (err)
+//@ trusted func (github.com/hydraide/hydraide/app/core/hydra/swamp/beacon.Beacon).SortByValueInt16DESC(b) (err)
+//@ trusted func (github.com/hydraide/hydraide/app/core/hydra/swamp/beacon.Beacon).SortByValueInt32ASC(b) (err)
+//@ trusted func (github.com/hydraide/hydraide/app/core/hydra/swamp/beacon.Beacon).SortByValueInt32DESC(b) (err)
+//@ trusted func (github.com/hydraide/hydraide/app/core/hydra/swamp/beacon.Beacon).SortByValueInt64ASC(b) (err)
+//@ trusted func (github.com/hydraide/hydraide/app/core/hydra/swamp/beacon.Beacon).SortByValueInt64DESC(b) (err)
+//@ trusted func (github.com/hydraide/hydraide/app/core/hydra/swamp/beacon.Beacon).SortByValueFloat32ASC(b) (err)
+//@ trusted func (github.com/hydraide/hydraide/app/core/hydra/swamp/beacon.Beacon).SortByValueFloat32DESC(b) (err)
+//@ trusted func (github.com/hydraide/hydraide/app/core/hydra/swamp/beacon.Beacon).SortByValueFloat64ASC(b) (err)
+//@ trusted func (github.com/hydraide/hydraide/app/core/hydra/swamp/beacon.Beacon).SortByValueFloat64DESC(b) (err)
+//@ trusted func (github.com/hydraide/hydraide/app/core/hydra/swamp/beacon.Beacon).SortByValueStringASC(b) (err)
+//@ trusted func (github.com/hydraide/hydraide/app/core/hydra/swamp/beacon.Beacon).SortByValueStringDESC(b) (err)
+//@ trusted func (github.com/hydraide/hydraide/app/core/hydra/swamp/beacon.Beacon).PushManyFromMap(b, m)
+//@ trusted func (github.com/hydraide/hydraide/app/core/hydra/swamp/beacon.Beacon).SetInitialized(b, v)
+
+//@ func (*swamp).buildBeacon(s, beaconASC, beaconDESC, bc)
+//@   property C07
+//@   requires[indexes] beaconASC != nil && beaconDESC != nil && ipay(beaconASC) != ipay(beaconDESC)
+//@   modifies *
+//@   ensures[asc_CreationTime] !old(icall("IsInitialized", beaconASC)) && bc == BeaconTypeCreationTime ==> calls("Beacon.SortByCreationTimeAsc") == old(calls("Beacon.SortByCreationTimeAsc")) + 1 && calledwith("Beacon.SortByCreationTimeAsc", 0, beaconASC)
+//@   ensures[desc_CreationTime] !old(icall("IsInitialized", beaconDESC)) && bc == BeaconTypeCreationTime ==> calls("Beacon.SortByCreationTimeDesc") == old(calls("Beacon.SortByCreationTimeDesc")) + 1 && calledwith("Beacon.SortByCreationTimeDesc", 0, beaconDESC)
+//@   ensures[asc_UpdateTime] !old(icall("IsInitialized", beaconASC)) && bc == BeaconTypeUpdateTime ==> calls("Beacon.SortByUpdateTimeAsc") == old(calls("Beacon.SortByUpdateTimeAsc")) + 1 && calledwith("Beacon.SortByUpdateTimeAsc", 0, beaconASC)
+//@   ensures[desc_UpdateTime] !old(icall("IsInitialized", beaconDESC)) && bc == BeaconTypeUpdateTime ==> calls("Beacon.SortByUpdateTimeDesc") == old(calls("Beacon.SortByUpdateTimeDesc")) + 1 && calledwith("Beacon.SortByUpdateTimeDesc", 0, beaconDESC)
+//@   ensures[asc_ExpirationTime] !old(icall("IsInitialized", beaconASC)) && bc == BeaconTypeExpirationTime ==> calls("Beacon.SortByExpirationTimeAsc") == old(calls("Beacon.SortByExpirationTimeAsc")) + 1 && calledwith("Beacon.SortByExpirationTimeAsc", 0, beaconASC)
+//@   ensures[desc_ExpirationTime] !old(icall("IsInitialized", beaconDESC)) && bc == BeaconTypeExpirationTime ==> calls("Beacon.SortByExpirationTimeDesc") == old(calls("Beacon.SortByExpirationTimeDesc")) + 1 && calledwith("Beacon.SortByExpirationTimeDesc", 0, beaconDESC)
+//@   ensures[asc_Key] !old(icall("IsInitialized", beaconASC)) && bc == BeaconTypeKey ==> calls("Beacon.SortByKeyAsc") == old(calls("Beacon.SortByKeyAsc")) + 1 && calledwith("Beacon.SortByKeyAsc", 0, beaconASC)
+//@   ensures[desc_Key] !old(icall("IsInitialized", beaconDESC)) && bc == BeaconTypeKey ==> calls("Beacon.SortByKeyDesc") == old(calls("Beacon.SortByKeyDesc")) + 1 && calledwith("Beacon.SortByKeyDesc", 0, beaconDESC)
+//@   ensures[asc_ValueUint8] !old(icall("IsInitialized", beaconASC)) && bc == BeaconTypeValueUint8 ==> calls("Beacon.SortByValueUint8ASC") == old(calls("Beacon.SortByValueUint8ASC")) + 1 && calledwith("Beacon.SortByValueUint8ASC", 0, beaconASC)
+//@   ensures[desc_ValueUint8] !old(icall("IsInitialized", beaconDESC)) && bc == BeaconTypeValueUint8 ==> calls("Beacon.SortByValueUint8DESC") == old(calls("Beacon.SortByValueUint8DESC")) + 1 && calledwith("Beacon.SortByValueUint8DESC", 0, beaconDESC)
+//@   ensures[asc_ValueUint16] !old(icall("IsInitialized", beaconASC)) && bc == BeaconTypeValueUint16 ==> calls("Beacon.SortByValueUint16ASC") == old(calls("Beacon.SortByValueUint16ASC")) + 1 && calledwith("Beacon.SortByValueUint16ASC", 0, beaconASC)
+//@   ensures[desc_ValueUint16] !old(icall("IsInitialized", beaconDESC)) && bc == BeaconTypeValueUint16 ==> calls("Beacon.SortByValueUint16DESC") == old(calls("Beacon.SortByValueUint16DESC")) + 1 && calledwith("Beacon.SortByValueUint16DESC", 0, beaconDESC)
+//@   ensures[asc_ValueUint32] !old(icall("IsInitialized", beaconASC)) && bc == BeaconTypeValueUint32 ==> calls("Beacon.SortByValueUint32ASC") == old(calls("Beacon.SortByValueUint32ASC")) + 1 && calledwith("Beacon.SortByValueUint32ASC", 0, beaconASC)
+//@   ensures[desc_ValueUint32] !old(icall("IsInitialized", beaconDESC)) && bc == BeaconTypeValueUint32 ==> calls("Beacon.SortByValueUint32DESC") == old(calls("Beacon.SortByValueUint32DESC")) + 1 && calledwith("Beacon.SortByValueUint32DESC", 0, beaconDESC)
+//@   ensures[asc_ValueUint64] !old(icall("IsInitialized", beaconASC)) && bc == BeaconTypeValueUint64 ==> calls("Beacon.SortByValueUint64ASC") == old(calls("Beacon.SortByValueUint64ASC")) + 1 && calledwith("Beacon.SortByValueUint64ASC", 0, beaconASC)
+//@   ensures[desc_ValueUint64] !old(icall("IsInitialized", beaconDESC)) && bc == BeaconTypeValueUint64 ==> calls("Beacon.SortByValueUint64DESC") == old(calls("Beacon.SortByValueUint64DESC")) + 1 && calledwith("Beacon.SortByValueUint64DESC", 0, beaconDESC)
+//@   ensures[asc_ValueInt8] !old(icall("IsInitialized", beaconASC)) && bc == BeaconTypeValueInt8 ==> calls("Beacon.SortByValueInt8ASC") == old(calls("Beacon.SortByValueInt8ASC")) + 1 && calledwith("Beacon.SortByValueInt8ASC", 0, beaconASC)
+//@   ensures[desc_ValueInt8] !old(icall("IsInitialized", beaconDESC)) && bc == BeaconTypeValueInt8 ==> calls("Beacon.SortByValueInt8DESC") == old(calls("Beacon.SortByValueInt8DESC")) + 1 && calledwith("Beacon.SortByValueInt8DESC", 0, beaconDESC)
+//@   ensures[asc_ValueInt16] !old(icall("IsInitialized", beaconASC)) && bc == BeaconTypeValueInt16 ==> calls("Beacon.SortByValueInt16ASC") == old(calls("Beacon.SortByValueInt16ASC")) + 1 && calledwith("Beacon.SortByValueInt16ASC", 0, beaconASC)
+//@   ensures[desc_ValueInt16] !old(icall("IsInitialized", beaconDESC)) && bc == BeaconTypeValueInt16 ==> calls("Beacon.SortByValueInt16DESC") == old(calls("Beacon.SortByValueInt16DESC")) + 1 && calledwith("Beacon.SortByValueInt16DESC", 0, beaconDESC)
+//@   ensures[asc_ValueInt32] !old(icall("IsInitialized", beaconASC)) && bc == BeaconTypeValueInt32 ==> calls("Beacon.SortByValueInt32ASC") == old(calls("Beacon.SortByValueInt32ASC")) + 1 && calledwith("Beacon.SortByValueInt32ASC", 0, beaconASC)
+//@   ensures[desc_ValueInt32] !old(icall("IsInitialized", beaconDESC)) && bc == BeaconTypeValueInt32 ==> calls("Beacon.SortByValueInt32DESC") == old(calls("Beacon.SortByValueInt32DESC")) + 1 && calledwith("Beacon.SortByValueInt32DESC", 0, beaconDESC)
+//@   ensures[asc_ValueInt64] !old(icall("IsInitialized", beaconASC)) && bc == BeaconTypeValueInt64 ==> calls("Beacon.SortByValueInt64ASC") == old(calls("Beacon.SortByValueInt64ASC")) + 1 && calledwith("Beacon.SortByValueInt64ASC", 0, beaconASC)
+//@   ensures[desc_ValueInt64] !old(icall("IsInitialized", beaconDESC)) && bc == BeaconTypeValueInt64 ==> calls("Beacon.SortByValueInt64DESC") == old(calls("Beacon.SortByValueInt64DESC")) + 1 && calledwith("Beacon.SortByValueInt64DESC", 0, beaconDESC)
+//@   ensures[asc_ValueFloat32] !old(icall("IsInitialized", beaconASC)) && bc == BeaconTypeValueFloat32 ==> calls("Beacon.SortByValueFloat32ASC") == old(calls("Beacon.SortByValueFloat32ASC")) + 1 && calledwith("Beacon.SortByValueFloat32ASC", 0, beaconASC)
+//@   ensures[desc_ValueFloat32] !old(icall("IsInitialized", beaconDESC)) && bc == BeaconTypeValueFloat32 ==> calls("Beacon.SortByValueFloat32DESC") == old(calls("Beacon.SortByValueFloat32DESC")) + 1 && calledwith("Beacon.SortByValueFloat32DESC", 0, beaconDESC)
+//@   ensures[asc_ValueFloat64] !old(icall("IsInitialized", beaconASC)) && bc == BeaconTypeValueFloat64 ==> calls("Beacon.SortByValueFloat64ASC") == old(calls("Beacon.SortByValueFloat64ASC")) + 1 && calledwith("Beacon.SortByValueFloat64ASC", 0, beaconASC)
+//@   ensures[desc_ValueFloat64] !old(icall("IsInitialized", beaconDESC)) && bc == BeaconTypeValueFloat64 ==> calls("Beacon.SortByValueFloat64DESC") == old(calls("Beacon.SortByValueFloat64DESC")) + 1 && calledwith("Beacon.SortByValueFloat64DESC", 0, beaconDESC)
+//@   ensures[asc_ValueString] !old(icall("IsInitialized", beaconASC)) && bc == BeaconTypeValueString ==> calls("Beacon.SortByValueStringASC") == old(calls("Beacon.SortByValueStringASC")) + 1 && calledwith("Beacon.SortByValueStringASC", 0, beaconASC)
+//@   ensures[desc_ValueString] !old(icall("IsInitialized", beaconDESC)) && bc == BeaconTypeValueString ==> calls("Beacon.SortByValueStringDESC") == old(calls("Beacon.SortByValueStringDESC")) + 1 && calledwith("Beacon.SortByValueStringDESC", 0, beaconDESC)
+//@   ensures[filled_before_sorted] !old(icall("IsInitialized", beaconASC)) || !old(icall("IsInitialized", beaconDESC)) ==> calls("Beacon.PushManyFromMap") > old(calls("Beacon.PushManyFromMap"))
